@@ -32,7 +32,8 @@ GATES = {
     "multiscale_S2_observed": 1,
     "multiscale_S3_observed": 1,
     "history_check_run_run": 1,
-    "history_run_check_run": 1, "history_with_suffixed_validation_only": 1,
+    "history_run_check_run": 1, "history_with_suffixed_validation_only": 1, "history_two_pipelines_on_one_machine": 10,
+    "second_pipeline_drops_a_step_of_the_first": 2, "second_pipeline_reorders_steps_of_the_first": 2,
     "right_pass_observed": 1,
     "rejected_words": 100,
     "accepted_words": 100,
@@ -66,6 +67,8 @@ def plan(tier, seed):
     for i in range(nh):
         specs.append({"name": f"hist-{i}", "work": "hist", "part": i, "n": 40 if tier == "quick" else 150,
                       "timeout": 3000})
+    for i in range(2 if tier == "quick" else 8):
+        specs.append({"name": f"hist2-{i}", "work": "hist2", "part": i, "n": 30 if tier == "quick" else 120, "timeout": 3000})
     return specs
 
 
@@ -166,7 +169,7 @@ def cases(spec, ctx):
         rng = ctx.rng("hist", spec["part"])
         for i in range(spec["n"]):
             w = pipes.sample_word(rng, max_len=7)
-            if rng.random() < 0.5 and "disparity" in w and "validation" not in w:
+            if (rng.random() < 0.5 or i % 4 == 0) and "disparity" in w and "validation" not in w:
                 w.append("validation")
             # documented usage: a pipeline is checked on the machine, then run any number of times
             ops = ["check"] + [["check", "run"][int(x)] for x in rng.integers(0, 2, int(rng.integers(4, 9)))]
@@ -176,6 +179,51 @@ def cases(spec, ctx):
                 ops = ["check", "run", "check", "run"] + ops[1:3]
             sfx = set(w) if i % 2 == 0 else None
             yield {"work": "hist", "keys": pipes.keys_for(w, suffix_first=sfx), "ops": ops, "i": i, "part": spec["part"]}
+    elif work == "hist2":
+        yield from _hist2_cases(spec, ctx)
+
+
+def _hist2_cases(spec, ctx):
+    """Two different accepted pipelines checked one after the other on one machine object."""
+    rng = ctx.rng("hist2", spec["part"])
+    i = 0
+    while i < spec["n"]:
+        a = pipes.sample_word(rng, max_len=7)
+        kind = i % 4
+        if kind == 0:
+            # B = A without one of its post-disparity steps
+            post = [j for j, k in enumerate(a) if j > a.index("disparity")]
+            if not post:
+                a.append("filter")
+                post = [len(a) - 1]
+            j = post[int(rng.integers(0, len(post)))]
+            b = a[:j] + a[j + 1:]
+        elif kind == 1:
+            # B = A with two different post-disparity steps exchanged
+            d = a.index("disparity")
+            tail = [k for k in a[d + 1:] if k != "multiscale"]
+            if len(set(tail)) < 2:
+                tail = ["filter", "refinement"]
+            a = a[:d + 1] + tail
+            x, y = [j for j in range(d + 1, len(a))][0], max(j for j in range(d + 1, len(a)) if a[j] != a[d + 1])
+            b = list(a)
+            b[x], b[y] = b[y], b[x]
+        elif kind == 2:
+            # B = A plus a step placed before known ones
+            b = list(a)
+            b.insert(1, "cost_volume_confidence")
+        else:
+            b = pipes.sample_word(rng, max_len=7)
+        if rng.random() < 0.4 and "validation" not in a:
+            a = [k for k in a if k != "multiscale"] + ["validation"]
+        if not (pipes.dfa_accepts(a) and pipes.dfa_accepts(b)) or a == b:
+            continue
+        sfx_a = set(a) if rng.random() < 0.3 else None
+        sfx_b = set(b) if rng.random() < 0.3 else None
+        yield {"work": "hist2", "keys": pipes.keys_for(a, suffix_first=sfx_a), "keys_b": pipes.keys_for(b, suffix_first=sfx_b),
+               "via": ["section", "machine"][i % 2 if kind != 1 else 0], "run_first": bool(rng.integers(0, 2)), "i": i,
+               "part": spec["part"], "relation": ["drop", "swap", "add", "other"][kind]}
+        i += 1
 
 
 FAULTS = {
@@ -306,6 +354,9 @@ def run_case(case, ctx):
         return
     if work == "hist":
         _hist(case, ctx, keys, kinds)
+        return
+    if work == "hist2":
+        _hist2(case, ctx, keys, kinds)
         return
     raise ValueError(work)
 
@@ -496,6 +547,60 @@ def _hist(case, ctx, keys, kinds):
         ctx.violation("repeated-run-differs", f"word {keys} ops {ops}: digests {run_results}", case)
     if case["i"] < 2:
         ctx.sample({"word": keys, "ops": ops, "run_digests": run_results[:2]})
+
+
+def _hist2(case, ctx, keys, kinds):
+    """check(A) [run(A)] check(B) run(B) on one machine against check(B) run(B) on a new machine."""
+    import pandora
+    from pandora import check_configuration as cc
+
+    keys_b = case["keys_b"]
+    kinds_b = [pipes.kind_of(k) for k in keys_b]
+    left, right, mb = _datasets_for(kinds + kinds_b)
+    if left is None:
+        ctx.ood()
+        return
+    ctx.case(["hist2", keys, keys_b, case["via"], case["run_first"]])
+    pipe_a, pipe_b = pipes.instantiate(keys, multiband=mb), pipes.instantiate(keys_b, multiband=mb)
+    ml, mr = gen.metadata_dataset(left), gen.metadata_dataset(right)
+
+    def chk(m, pipe):
+        if case["via"] == "section":
+            return cc.check_pipeline_section({"pipeline": copy.deepcopy(pipe)}, ml, mr, m)
+        m.check_conf({"pipeline": copy.deepcopy(pipe)}, ml, mr)
+        return copy.deepcopy(m.pipeline_cfg)
+
+    def go(m):
+        cfg = chk(m, pipe_b)
+        seen = [json.dumps(cfg, default=repr, sort_keys=False), json.dumps(m.margins.to_dict(), default=repr, sort_keys=False)]
+        l, r = pandora.run(m, gen.deep_copy_ds(left), gen.deep_copy_ds(right), copy.deepcopy(cfg))
+        return cfg, seen, (gen.ds_digest(l), gen.ds_digest(r)), ("disparity_map" in r)
+
+    m = pipes.new_machine()
+    cfg_a = chk(m, pipe_a)
+    if case["run_first"]:
+        pandora.run(m, gen.deep_copy_ds(left), gen.deep_copy_ds(right), copy.deepcopy(cfg_a))
+    cfg_b, seen, dig, has_right = go(m)
+    _, seen0, dig0, _ = go(pipes.new_machine())
+    ctx.gate("history_two_pipelines_on_one_machine")
+    ctx.gate("second_pipeline_drops_a_step_of_the_first", int(case["relation"] == "drop"))
+    ctx.gate("second_pipeline_reorders_steps_of_the_first", int(case["relation"] == "swap"))
+    sit = f"{case['relation']}-via-{case['via']}"
+    if list(cfg_b["pipeline"]) != list(keys_b):
+        ctx.violation("check-after-another-pipeline-changes-the-steps", f"after {keys}, the check of {keys_b} returned the steps "
+                      f"{list(cfg_b['pipeline'])}", case, situation=sit)
+    elif seen != seen0:
+        ctx.violation("check-after-another-pipeline-differs", f"after {keys}, the check of {keys_b} differs from the check on a new "
+                      f"machine: {[a for a, b in zip(seen, seen0) if a != b][0][:300]}", case, situation=sit)
+    if dig != dig0:
+        ctx.violation("run-after-another-pipeline-differs", f"after {keys}, the run of {keys_b} differs from the run on a new machine",
+                      case, situation=sit)
+    if has_right != ("validation" in kinds_b):
+        ctx.violation("right-product-iff-validation", f"after {keys}, the run of {keys_b} {'returns' if has_right else 'lacks'} "
+                      f"right products", case, situation=sit)
+    probs = _clean(m)
+    if probs:
+        ctx.violation("machine-not-reset-in-history", f"{keys} then {keys_b}: {probs}", case)
 
 
 def finish(coverage, tot, tier):
